@@ -50,6 +50,13 @@ func init() {
 		defer env.Close()
 		return RunRouter(env, a[0], a[1], a[2])
 	}
+	Modes["diammsg"] = func(a []string) error {
+		if len(a) != 3 {
+			return fmt.Errorf("diammsg <prefix> <vectors.json> <out.ndjson>")
+		}
+		Quiet()
+		return RunDiamMsg(a[1], a[2])
+	}
 	Modes["abmf"] = func(a []string) error {
 		if len(a) != 3 {
 			return fmt.Errorf("abmf <prefix> <behaviours.json> <out.ndjson>")
